@@ -88,6 +88,28 @@ def _fn(bid):
     return "::".join(tail)
 
 
+def _closures_of(P, bid, acc=None):
+    acc = acc if acc is not None else []
+    for k in P.children.get(bid, []):
+        acc.append(k)
+        _closures_of(P, k, acc)
+    return acc
+
+
+def _reach_wo(F, s, targets, avoid):
+    """can s reach a target without passing an `avoid` block?"""
+    seen, st, av, tg = set(), [s], set(avoid), set(targets)
+    while st:
+        x = st.pop()
+        if x in seen or x in av:
+            continue
+        seen.add(x)
+        if x in tg:
+            return True
+        st.extend(F.succ(x))
+    return False
+
+
 def guards_of(ctx, F, target_block):
     """switches dominating target_block that have an edge from which target_block is unreachable."""
     O = ctx.O
@@ -103,8 +125,50 @@ def guards_of(ctx, F, target_block):
         sl = O.slice_back(F, t["op"])
         vars_ = {F.name_of.get(l) for l in sl["locals"] if F.name_of.get(l)}
         out.append({"block": b, "vars": vars_, "consts": {str(x) for x in sl["consts"]}, "calls": sl["calls"],
-                    "fields": sl["fields"]})
+                    "fields": sl["fields"], "esc": esc})
     return out
+
+
+WHOLE_SCAN = re.compile(r".*Iterator>?::(find|find_map|any|all|position|max|max_by_key|max_by|min|fold|try_fold|"
+                        r"try_for_each|for_each|next)$")
+PROJECTION = re.compile(r"core::slice::<impl \[T\]>::(last|first|get|split_last|split_first)$|"
+                        r".*Iterator>?::(last|nth|next_back)$")
+RAW_UNDO = ("vecdb::variants::raw::inner::read_write::rollback::<impl vecdb::variants::raw::inner::read_write::"
+            "ReadWriteRawVec<I, T, S>>::deserialize_then_undo_changes")
+
+
+def raw_undo_validates_all(ctx, chk, rid):
+    """shared by C17 (no panic on damaged records) and C16 (a refused rollback changes nothing)"""
+    O, P = ctx.O, ctx.P
+    F = O.body(RAW_UNDO)
+    ua = O.need_sites(F, M(r".*ReadWriteRawVec::<.*>::update_at"), 1)
+    for b in ua:
+        t = F.blocks[b]["term"]
+        propagated = any("Try>::branch" in n for s_ in F.succ(b) if F.blocks[s_]["term"]["k"] == "call"
+                         for n in names(F.blocks[s_]["term"]))
+        if propagated:
+            chk.oblige("%s raw undo: update_at result is propagated" % rid, True)
+            continue
+        sl = O.slice_back(F, t["args"][1])
+        src = {F.name_of.get(l) for l in sl["locals"] if F.name_of.get(l)} - {"bytes", "self"}
+        good = []
+        oks = [x for x, k in O.exit_kinds(F).items() if k == "ok"]
+        errs = [x for x, k in O.exit_kinds(F).items() if k == "err"]
+        for g in guards_of(ctx, F, b):
+            if not (g["vars"] & src):
+                continue
+            if any(e in oks or O.can_reach(F, e, oks) for e in g["esc"]) or not any(
+                    e in errs or O.can_reach(F, e, errs) for e in g["esc"]):
+                continue    # not an error exit (e.g. the header of the applying loop itself)
+            scan = any(WHOLE_SCAN.match(c) for c in g["calls"])
+            proj = any(PROJECTION.match(c) for c in g["calls"])
+            if scan and not proj and len(g["vars"] - {"bytes", "self"}) >= 2:
+                good.append(g["block"])
+        chk.oblige("%s raw undo: the indices applied by update_at (result only debug-asserted) are range-checked by a "
+                   "scan over the whole list with an error exit before anything is applied" % rid, bool(good),
+                   key="%s|raw-undo|indices-not-all-validated" % rid,
+                   msg="an out-of-range slot index in a damaged change record reaches update_at: debug builds panic "
+                       "after the vector is half rolled back, release builds silently drop the entry")
 
 
 def run(ctx, chk):
@@ -194,36 +258,84 @@ def run(ctx, chk):
                    key="D7|ChangeCursor::%s|unchecked-window" % meth,
                    msg="a record that ends inside a field must be refused: each read checks that the whole window lies "
                        "inside the record before touching it")
-    # D4 Regions::fill skips a slot whose decode fails
-    F = O.body("rawdb::regions::Regions::fill")
-    fb = O.need_sites(F, M(r"rawdb::region_metadata::RegionMetadata::from_bytes"), 1)
-    for b in fb:
-        t = F.blocks[b]["term"]
-        r = t["dest"]["l"]
-        users = []
-        for bb, tt in F.calls():
-            if any(op_local(a) == r for a in tt["args"]):
-                users.append(names(tt)[0])
-        propagates = any(("branch" in u) or u.endswith("unwrap") or u.endswith("expect") for u in users)
-        skip = False
-        for bb in F.reachable():
-            tt = F.blocks[bb]["term"]
-            if tt["k"] == "switch":
-                dl = op_local(tt["op"])
-                for d in F.defs().get(dl, []):
-                    if d[0] == "assign" and d[3]["k"] == "discr" and d[3]["place"]["l"] == r:
-                        for v, tb in tt["targets"]:
-                            pass
-                        succs = F.succ(bb)
-                        # the Err edge returns to the loop (can reach the decode call again) and builds no error
-                        for s in succs:
-                            if O.can_reach(F, s, [b]):
-                                skip = True
-        ek = O.exit_kinds(F)
-        chk.oblige("D4 Regions::fill: a slot that fails to decode is skipped (no ?/unwrap on the decode result; the "
-                   "error edge continues the loop)", (not propagates) and skip, detail={"users": users},
-                   key="D4|Regions::fill|skip-bad-slot",
-                   msg="a metadata slot that fails validation must be ignored at open without disturbing the valid ones")
+    # D4 Regions::fill skips a slot whose decode fails (the decode may sit in the loop of fill or in a closure of an
+    # iterator chain of fill)
+    FILL = "rawdb::regions::Regions::fill"
+    FB = M(r"rawdb::region_metadata::RegionMetadata::from_bytes")
+    hosts = [x for x in [FILL] + _closures_of(P, FILL) if O.sites(P.bodies[x], FB)]
+    if not hosts:
+        raise AnchorMissing("Regions::fill (and its closures): no call of RegionMetadata::from_bytes")
+    for hid in hosts:
+        F = O.body(hid) if hid == FILL else P.bodies[hid]
+        for b in O.sites(F, FB):
+            t = F.blocks[b]["term"]
+            r = t["dest"]["l"]
+            users = []
+            for bb, tt in F.calls():
+                if any(op_local(a) == r for a in tt["args"]):
+                    users.append(names(tt)[0])
+            propagates = any(("Try>::branch" in u or u.endswith("Try::branch")) or u.endswith("unwrap") or u.endswith("expect")
+                             for u in users)
+            if hid != FILL:
+                # in a closure: the failure cannot become fill's error unless the closure returns a Result
+                skip = not F.locals[0]["ty"].startswith("core::result::Result<")
+            else:
+                skip = False
+                for bb in F.reachable():
+                    tt = F.blocks[bb]["term"]
+                    if tt["k"] == "switch":
+                        dl = op_local(tt["op"])
+                        for d in F.defs().get(dl, []):
+                            if d[0] == "assign" and d[3]["k"] == "discr" and d[3]["place"]["l"] == r:
+                                # the Err edge returns to the loop (can reach the decode call again)
+                                for s_ in F.succ(bb):
+                                    if O.can_reach(F, s_, [b]):
+                                        skip = True
+            chk.oblige("D4 Regions::fill: a slot that fails to decode is skipped (no ?/unwrap on the decode result; the "
+                       "error edge continues the loop)", (not propagates) and skip, detail={"users": users, "in": hid},
+                       key="D4|Regions::fill|skip-bad-slot",
+                       msg="a metadata slot that fails validation must be ignored at open without disturbing the valid ones")
+    # D8 change records: the slot indices of a raw change record are applied by update_at whose result is only
+    # debug-asserted; every one of them must have been range-checked (a whole-collection scan with an error exit)
+    raw_undo_validates_all(ctx, chk, "D8")
+    # D4b a decoded slot is registered under the index its bytes were addressed with
+    F = O.body(FILL)
+    rf = O.need_sites(F, M(r"rawdb::region::Region::from"), 1)
+    dec = O.need_sites(F, M(r"rawdb::region_metadata::RegionMetadata::from_bytes", reach=True), 1)
+
+    def induction(sl):
+        out = set()
+        for l in sl["locals"]:
+            ds = F.defs().get(l, [])
+            for d in ds:
+                if d[0] == "call" and any(n.endswith("::next") for n in names(d[2])):
+                    out.add(("next", d[1]))
+                if d[0] == "call" and any(n.endswith("Iterator::enumerate") for n in names(d[2])):
+                    out.add(("enumerate", d[1]))
+            if len(ds) > 1:
+                out.add(("counter", l))
+        return out
+
+    def lockstep(counter, nxt):
+        """every trip round the loop from the `next` call back to it passes an update of the counter"""
+        upd = [d[1] for d in F.defs().get(counter, []) if O.can_reach(F, nxt, [d[1]])]
+        return bool(upd) and not any(_reach_wo(F, s_, [nxt], upd) for s_ in F.succ(nxt))
+
+    for b in rf:
+        idx = induction(O.slice_back(F, F.blocks[b]["term"]["args"][1]))
+        byts = set()
+        for d_ in dec:
+            for a_ in F.blocks[d_]["term"]["args"][:1]:
+                byts |= induction(O.slice_back(F, a_))
+        common = idx & byts
+        paired = [(c_[1], n_[1]) for c_ in idx if c_[0] == "counter" for n_ in byts if n_[0] == "next"
+                  and lockstep(c_[1], n_[1])]
+        chk.oblige("D4b Regions::fill: the index a region is registered under derives from the loop variable that "
+                   "addressed its slot bytes (shared induction %s, lockstep counters %s)" % (
+                       sorted(x[0] for x in common), len(paired)), bool(common) or bool(paired),
+                   key="D4b|Regions::fill|slot-index-source",
+                   msg="a skipped (invalid) slot must not shift the indices of the valid ones after it: the next metadata "
+                       "write of such a region would land in its neighbour's slot")
     chk.cov["decoder_bodies"] = len(bodies)
     chk.cov["sites_by_kind"] = kinds
     chk.cov["param_lower_bounds"] = {k: {str(i): v[1] for i, v in d.items()} for k, d in PARAM_LB.items()}
